@@ -18,8 +18,8 @@ LEVEL_TEXT = ("proof (Coq), general in degree, knot vector, multiplicities and p
               "positivity in the open span; A2.2 = Cox-de Boor recursion; A2.4 (single function) = Cox-de Boor recursion incl. the end convention; "
               "A2.5 = Eq. 2.9 derivative recursion; linear span search specification and uniqueness of the span; binary search = linear search for "
               "every parameter u >= U_p with fuel sufficiency; check() specification; normalize affine and monotone; generate produces valid clamped "
-              "knot vectors for every (degree, count).  Bounded: A2.3 rows = Eq. 2.9 and agree with A2.5 for degrees 1..5 (all knot vectors), "
-              "derivative rows sum to zero for degrees 1..6; degree 7 of the property's range 1..7 for A2.3 is tied by the correspondence only. "
+              "knot vectors for every (degree, count).  A2.3: ndu table specification, Eq. 2.10, rows = Eq. 2.9, rows agree with A2.5 and every "
+              "derivative row sums to zero - for EVERY degree (round 2, Proofs/DersGeneral*.v; the degree <= 5/6 window theorems remain as cross-checks). "
               "Executed Q instance = image of the R instance by parametricity (transfer theorems).")
 TECHNIQUE = "Coq proof (induction over degree / list structure, field on symbolic knot windows + window locality) on a Gallina model + vm_compute correspondence with the implementation"
 
